@@ -514,7 +514,7 @@ CONTRACTS += [
     Contract("ofxtools.models.base:Aggregate.__getattr__",
              args=[GAArgs()], call=call_getattr_body,
              ensures=[("first-definer-wins", "(ga['K'] == 1 and ga['J'] == 0 and result[0] == 'return' and spec.aggregate.same_value(result[1], ga['VALUE'])) or "
-                                             "(not (ga['K'] == 1 and ga['J'] == 0) and result[0] == 'continue')"),
+                                             "(not (ga['K'] == 1 and ga['J'] == 0) and result[0] in ('continue', 'next'))"),
                       ("C17-lookup-stores-nothing", "result[2] == 0")],
              notes="loop body of __getattr__ with a symbolic sub-aggregate: a definer returns the very value stored; anything else moves on; no exception escapes (raises: none allowed)",
              props=["C16", "C17"], symbolic_only=True),
@@ -712,8 +712,16 @@ is_list_type = z3.Function("is_list_type", V, z3.BoolSort())
 
 
 class AType(Abstract):
-    def __init__(self, e):
-        self.e = e
+    """the value of the pair (attr, type_) that spec.items() yields: for a non-list attribute it IS the attribute's converter
+    (cls._superdict[attr] is the same object), so converting through it is converting through that converter"""
+
+    def __init__(self, e, attr=None):
+        self.e = e; self.attr = attr
+
+    def p_getattr(self, it, name):
+        if name in ("unconvert", "convert") and self.attr is not None:
+            return it.getattr(AConverter(toV(it, self.attr)), name)
+        raise C.Unsupported(f"AType.{name}")
 
     def p_isinstance(self, it, t):
         if isinstance(t, tuple) and set(t) == {T_.ListAggregate, T_.ListElement}:
@@ -783,7 +791,7 @@ class TEArgs(Arg):
         m0, m1 = AMemberTE("member0"), AMemberTE("member1")
         d = {"VK": SInt(vk), "AGG": aggv, "OTHER": otherv, "M0": m0, "M1": m1,
              "DO_LIST": SBool(z3.Bool("do_list0")), "ATTR": SVal(str, z3.Const("attr_name", V)),
-             "TYPE": AType(z3.Const("type_", V)),
+             "TYPE": AType(z3.Const("type_", V), SVal(str, z3.Const("attr_name", V))),
              "self": ASelfTE(vk, aggv, otherv, [m0, m1])}
         return d, [vk >= 0, vk <= 2]
 
